@@ -2,7 +2,7 @@
   C12: the main lemmas behind the property theorems — every feature written covers the same bases
   as the feature of the full record it was made from.
 -/
-import ASV.Proofs.RegionExtractBases
+import ASV.Proofs.RegionExtractRotate
 set_option linter.unusedSimpArgs false
 namespace ASV.RegionExtract
 open ASV
@@ -13,14 +13,35 @@ theorem sliceSeq_length (s : List Char) (a b : Int) (h0 : 0 ≤ a) (h1 : a ≤ b
   simp only [List.length_drop, List.length_take]
   omega
 
+theorem rotOK_unpack (L k : Int) (l : Loc) (h : rotOK L k l = true) :
+    ∃ s, (∀ p ∈ l.parts, p.strand = s) ∧ chainFree (rotPieces L k l) = true := by
+  unfold rotOK at h
+  simp only [Bool.and_eq_true] at h
+  obtain ⟨h1, h2⟩ := h
+  split at h1
+  · cases h1
+  · rename_i p ps hps
+    refine ⟨p.strand, ?_, h2⟩
+    intro q hq
+    rw [hps] at hq
+    rcases List.mem_cons.1 hq with rfl | hq
+    · rfl
+    · have := List.all_eq_true.1 h1 q hq
+      simpa using this
+
+/-- what `wfInput` says about one feature when the region runs over the origin -/
+def CrossOK (rd : RegionData) (L : Int) (l : Loc) : Prop :=
+  (bridgesOrigin l = true → twoPart L l = true ∨
+    (l.len ≠ L ∧ rotOK L (-rd.start) l = true ∧ rotOK L (L - rd.start) l = true)) ∧
+  (bridgesOrigin l = false → l.len ≤ l.end - l.start ∧ rotOK L (L - rd.start) l = true)
+
 /-- unpacking `wfInput` -/
 theorem wf_unpack (rd : RegionData) (rec : BioRecord) (h : wfInput rd rec = true) :
     0 < rec.length ∧
-    (rd.crossesOrigin = true → 0 < rd.end ∧ rd.end < rd.start ∧ rd.start < rec.length) ∧
+    (rd.crossesOrigin = true → 0 < rd.end ∧ rd.end ≤ rd.start ∧ rd.start < rec.length) ∧
     (rd.crossesOrigin = false → 0 ≤ rd.start ∧ rd.end ≤ rec.length) ∧
-    ∀ f ∈ rec.features, (f.loc.parts ≠ [] ∧ ∀ p ∈ f.loc.parts, 0 ≤ p.lo ∧ p.lo < p.hi ∧ p.hi ≤ rec.length) ∧
-      (bridgesOrigin f.loc = true → twoPart rec.length f.loc = true) ∧
-      (bridgesOrigin f.loc = false → f.loc.len ≤ f.loc.end - f.loc.start) := by
+    ∀ f ∈ rec.features, (f.loc.parts ≠ [] ∧ ∀ p ∈ f.loc.parts, PartIn rec.length p) ∧
+      (rd.crossesOrigin = true → CrossOK rd rec.length f.loc) := by
   unfold wfInput at h
   simp only [Bool.and_eq_true, decide_eq_true_eq, List.all_eq_true] at h
   obtain ⟨⟨hL, hreg⟩, hf⟩ := h
@@ -37,11 +58,23 @@ theorem wf_unpack (rd : RegionData) (rec : BioRecord) (h : wfInput rd rec = true
     obtain ⟨hp, hs⟩ := hf f hfm
     unfold partsOK at hp
     simp only [Bool.and_eq_true, Bool.not_eq_true', List.isEmpty_eq_false_iff, List.all_eq_true, decide_eq_true_eq] at hp
-    refine ⟨⟨hp.1, fun p hpm => ?_⟩, ?_, ?_⟩
+    refine ⟨⟨hp.1, fun p hpm => ?_⟩, ?_⟩
     · have := hp.2 p hpm
       exact ⟨this.1.1, this.1.2, this.2⟩
-    · intro hb; rw [hb] at hs; simpa using hs
-    · intro hb; rw [hb] at hs; simpa using hs
+    · intro hc
+      rw [hc] at hs
+      simp only [Bool.not_true, Bool.false_or] at hs
+      constructor
+      · intro hb
+        rw [hb] at hs
+        simp only [if_true, Bool.or_eq_true, Bool.and_eq_true, decide_eq_true_eq] at hs
+        rcases hs with hs | hs
+        · exact .inl hs
+        · exact .inr ⟨hs.1.1, hs.1.2, hs.2⟩
+      · intro hb
+        rw [hb] at hs
+        simp only [Bool.false_eq_true, if_false, Bool.and_eq_true, decide_eq_true_eq] at hs
+        exact hs
 
 /-- a two-part origin-spanning location ends at the record's end -/
 theorem twoPart_end (L : Int) (l : Loc) (h : twoPart L l = true) (hL : 0 < L) : l.end = L := by
@@ -73,6 +106,34 @@ theorem twoPart_offset (L st : Int) (l : Loc) (h : twoPart L l = true) (hst0 : 0
       exact cross_two_rev blo ahi st bhi as h3 h4 h5 hst0 hstL
   · cases h
 
+theorem emod_sub_L (a L : Int) : (a - L) % L = a % L := by
+  have : a - L = a + (-1) * L := by omega
+  rw [this, Int.add_mul_emod_self_right]
+
+/-- length of the sequence of a region over the origin -/
+theorem cross_len (rd : RegionData) (rec : BioRecord) (he0 : 0 < rd.end) (hes : rd.end ≤ rd.start)
+    (hsL : rd.start < rec.length) :
+    ((sliceSeq rec.seq rd.start rec.length ++ sliceSeq rec.seq 0 rd.end).length : Int) = rec.length - rd.start + rd.end := by
+  have hlen1 := sliceSeq_length rec.seq rd.start rec.length (by omega) (by omega) (by simp [BioRecord.length])
+  have hlen2 := sliceSeq_length rec.seq 0 rd.end (by omega) (by omega) (by simp [BioRecord.length] at hsL ⊢; omega)
+  rw [List.length_append]; push_cast; rw [hlen1, hlen2]; omega
+
+/-- what `offset_location` with `-start` makes of a feature running over the origin, after the whole-record
+    adjustment: the rotated bases -/
+theorem cross_rotated (rd : RegionData) (L : Int) (l : Loc) (hL : 0 < L) (hst0 : 0 < rd.start) (hstL : rd.start < L)
+    (hne : l.parts ≠ []) (hparts : ∀ p ∈ l.parts, PartIn L p) (hb : bridgesOrigin l = true) (hok : CrossOK rd L l) :
+    ∃ r, offsetLocation l (-rd.start) L = .ok r ∧
+      ∀ i, (wholeFix L r).mem i = true ↔ (0 ≤ i ∧ i < L ∧ l.mem ((rd.start + i) % L) = true) := by
+  rcases hok.1 hb with htwo | ⟨hlen, hr1, _⟩
+  · exact twoPart_offset L rd.start l htwo hst0 hstL
+  · obtain ⟨s, hs, hcf⟩ := rotOK_unpack L _ l hr1
+    obtain ⟨r, hr, _, hrl, hmem⟩ := offset_rotates_general l (-rd.start) L s hne hparts hs (by omega) (by omega) (by omega) hlen hcf
+    refine ⟨r, hr, fun i => ?_⟩
+    have hw : wholeFix L r = r := by unfold wholeFix; rw [hrl]; simp [hlen]
+    rw [hw, hmem i]
+    have : i - -rd.start = rd.start + i := by omega
+    rw [this]
+
 /-- every feature of the region record (before renumbering) covers the same bases as its source -/
 theorem origin_sameBases (rd : RegionData) (rec : BioRecord) (hwf : wfInput rd rec = true) (g : BioFeature)
     (ho : Origin rd rec g) :
@@ -85,42 +146,56 @@ theorem origin_sameBases (rd : RegionData) (rec : BioRecord) (hwf : wfInput rd r
   | pre f hf hc h1 h2 hg =>
     subst hg
     obtain ⟨he0, hes, hsL⟩ := hcross hc
-    exact ⟨f, hf, rfl, rfl, rfl, sameBases_pre _ rd f.loc hc hL he0 (by omega) hsL h1 h2⟩
+    exact ⟨f, hf, rfl, rfl, rfl, sameBases_pre _ rd f.loc hc hL he0 hes hsL h1 h2⟩
   | post f hf hc h1 h2 l hl hg =>
     subst hg
     obtain ⟨he0, hes, hsL⟩ := hcross hc
-    obtain ⟨⟨hne, hparts⟩, htwo, hhull⟩ := hfeat f hf
-    have hnb : bridgesOrigin f.loc = false := by
+    obtain ⟨⟨hne, hparts⟩, hok⟩ := hfeat f hf
+    have hok := hok hc
+    -- the feature is shorter than the record and may be rotated by `L - start`
+    have hrot : f.loc.len ≠ rec.length ∧ rotOK rec.length (rec.length - rd.start) f.loc = true := by
       cases hb : bridgesOrigin f.loc with
-      | false => rfl
+      | false => have := hok.2 hb; exact ⟨by omega, this.2⟩
       | true =>
-        have := twoPart_end _ f.loc (htwo hb) hL
-        omega
-    have hlen := hhull hnb
-    have hoff := offset_no_wrap f.loc (rec.length - rd.start) rec.length hne (fun p hp => (hparts p hp).2.1)
-      (by omega) hL (by omega) (by omega) (by omega)
-    rw [hoff] at hl
-    injection hl with hl
-    subst hl
-    exact ⟨f, hf, rfl, rfl, rfl, sameBases_post _ rd f.loc hc hL he0 (by omega) hsL h1 h2⟩
-  | cross f hf hc hb l hl hk hg =>
-    subst hg
-    obtain ⟨he0, hes, hsL⟩ := hcross hc
-    obtain ⟨_, htwo, _⟩ := hfeat f hf
-    obtain ⟨r, hr, hmem⟩ := twoPart_offset rec.length rd.start f.loc (htwo hb) (by omega) hsL
+        rcases hok.1 hb with htwo | ⟨hlen, _, hr2⟩
+        · have := twoPart_end _ f.loc htwo hL; omega
+        · exact ⟨hlen, hr2⟩
+    obtain ⟨s, hs, hcf⟩ := rotOK_unpack _ _ f.loc hrot.2
+    obtain ⟨r, hr, _, _, hmem⟩ := offset_rotates_general f.loc (rec.length - rd.start) rec.length s hne hparts hs
+      (by omega) (by omega) (by omega) hrot.1 hcf
     rw [hr] at hl
     injection hl with hl
     subst hl
     refine ⟨f, hf, rfl, rfl, rfl, ?_⟩
     intro i
     have hw : wraps rd = true := by rw [wraps_eq, hc]
-    have hlen1 := sliceSeq_length rec.seq rd.start rec.length (by omega) (by omega) (by simp [BioRecord.length])
-    have hlen2 := sliceSeq_length rec.seq 0 rd.end (by omega) (by omega) (by simp [BioRecord.length] at hsL ⊢; omega)
-    have hk' : (wholeFix rec.length r).end ≤ rec.length - rd.start + rd.end := by
-      have : ((sliceSeq rec.seq rd.start rec.length ++ sliceSeq rec.seq 0 rd.end).length : Int)
-          = rec.length - rd.start + rd.end := by
-        rw [List.length_append]; push_cast; rw [hlen1, hlen2]; omega
-      rw [this] at hk; exact hk
+    simp only [regionLen, toRecord, hw, if_true]
+    rw [hmem i]
+    have e : (i - (rec.length - rd.start)) % rec.length = (rd.start + i) % rec.length := by
+      have : i - (rec.length - rd.start) = (rd.start + i) - rec.length := by omega
+      rw [this, emod_sub_L]
+    rw [e]
+    constructor
+    · rintro ⟨h0, hlt, hm⟩
+      refine ⟨h0, ?_, hm⟩
+      have hb := mem_bounds f.loc _ hm
+      by_cases hlt2 : rd.start + i < rec.length
+      · rw [emod_small' _ _ (by omega) hlt2] at hb; omega
+      · rw [emod_big' _ _ (by omega) (by omega)] at hb; omega
+    · rintro ⟨h0, hlt, hm⟩
+      exact ⟨h0, by omega, hm⟩
+  | cross f hf hc hb l hl hk hnb hg =>
+    subst hg
+    obtain ⟨he0, hes, hsL⟩ := hcross hc
+    obtain ⟨⟨hne, hparts⟩, hok⟩ := hfeat f hf
+    obtain ⟨r, hr, hmem⟩ := cross_rotated rd rec.length f.loc hL (by omega) hsL hne hparts hb (hok hc)
+    rw [hr] at hl
+    injection hl with hl
+    subst hl
+    refine ⟨f, hf, rfl, rfl, rfl, ?_⟩
+    intro i
+    have hw : wraps rd = true := by rw [wraps_eq, hc]
+    rw [cross_len rd rec he0 hes hsL] at hk
     simp only [regionLen, toRecord, hw, if_true]
     rw [hmem i]
     constructor
@@ -299,7 +374,7 @@ theorem written_refs (rd : RegionData) (rec : BioRecord) (w : Written) (h : writ
     | plain f hf _ _ _ hg => exact ⟨f, hf, by rw [hg], by rw [hg], by rw [hg]⟩
     | pre f hf _ _ _ hg => exact ⟨f, hf, by rw [hg], by rw [hg], by rw [hg]⟩
     | post f hf _ _ _ _ _ hg => exact ⟨f, hf, by rw [hg], by rw [hg], by rw [hg]⟩
-    | cross f hf _ _ _ _ _ hg => exact ⟨f, hf, by rw [hg], by rw [hg], by rw [hg]⟩
+    | cross f hf _ _ _ _ _ _ hg => exact ⟨f, hf, by rw [hg], by rw [hg], by rw [hg]⟩
   obtain ⟨f, hf, h1, h2, h3⟩ := this
   refine ⟨f, hf, by rw [ht, h1], by rw [hty, h2], ?_⟩
   rw [← h2, ← h3]
